@@ -115,6 +115,9 @@ def build(variant):
             if only and only.group(1) != variant:
                 continue
             flags = list(v["cflags"]) + inc + [v["opt"], "-DOVMSIM_VARIANT_" + variant.upper()]
+            # reader templates (ASCII property deserialisation, codecs) are instantiated in the world TUs: the step clock must tick there too
+            if variant == "asan" and os.path.basename(p).startswith("hist_"):
+                flags.append("-fsanitize-coverage=trace-pc-guard")
             jobs.append((p, flags, variant))
     objs, errs = [], []
     with cf.ThreadPoolExecutor(max_workers=int(os.environ.get("VERIF_JOBS", "16"))) as ex:
